@@ -6,13 +6,18 @@
 EXTENDS GrpcProxy, Json, TLC
 
 Svc == <<"grpc.testing.TestService">>
-S1 == [host |-> "",   path |-> Svc]
-S2 == [host |-> "h1", path |-> Svc]
-S3 == [host |-> "",   path |-> Svc \o <<"UnaryCall">>]
+S1 == [host |-> "",   path |-> Svc, zero |-> FALSE]
+S2 == [host |-> "h1", path |-> Svc, zero |-> FALSE]
+S3 == [host |-> "",   path |-> Svc \o <<"UnaryCall">>, zero |-> FALSE]
 \* a method path that collides with a service a grpc.Server may register itself: routed like any other
-S4 == [host |-> "h1", path |-> <<"grpc.health.v1.Health">>]
+S4 == [host |-> "h1", path |-> <<"grpc.health.v1.Health">>, zero |-> FALSE]
 \* a route whose host is a glob pattern
-S5 == [host |-> "*.beta.c16.test", path |-> Svc]
+S5 == [host |-> "*.beta.c16.test", path |-> Svc, zero |-> FALSE]
+\* a second target of the host-less service route that is in the table with weight 0
+Sz == [host |-> "", path |-> Svc, zero |-> TRUE]
+MCSlotsW == {S1, Sz}
+\* b1 serves the route; then all traffic is moved to b2 while b1 stays in the table with weight 0
+MCTablesWeight == {[s \in Slots |-> IF s.zero THEN "" ELSE "b1"], [s \in Slots |-> IF s.zero THEN "b1" ELSE "b2"]}
 MCSlots2 == {S1, S2}
 MCSlotsH == {S1, S2, S4, S5}
 MCSlots4 == {S1, S2, S3, S4, S5}
@@ -108,14 +113,24 @@ MCBurstCalls == Unary({""}, {"multi"}, {"set"}, {"some"}, {0})
                 \cup {c \in Bidi({"", "h1"}, {"one"}, {"send"}, {"some"}, {0, 13}, {"echo"}) :
                          ~c.early /\ Len(c.reqs) = 1 /\ Len(c.resps) = 1}
 MCBurstSizes == {2, 3}
+\* message size limits as a configuration dimension: proxy.grpcmaxrxmsgsize bounds what the proxy accepts,
+\* proxy.grpcmaxtxmsgsize what it sends to the caller.  With rx > tx a request "qB" whose size lies between the
+\* two is accepted from the caller and therefore has to reach the backend like any other.
+MCCallsLimits ==
+    {Mk("unary", h, "one", <<"qB">>, OneIfOK(c), "echo", FALSE, "set", "some", c) : h \in {"", "h1"}, c \in {0, 13}}
+    \cup {Mk("cstream", "", "one", q, <<"r1">>, "late", FALSE, "set", "some", 0) : q \in {<<"qB">>, <<"q1", "qB">>, <<"qB", "q2">>}}
+    \cup {Mk("bidi", "", "one", q, <<"r1", "r2">>, g, FALSE, "send", "some", 0) : q \in {<<"qB", "q2">>, <<"q1", "qB">>}, g \in {"echo", "late"}}
+    \cup {Mk("sstream", "", "one", <<"qB">>, <<"r1", "r2">>, "echo", FALSE, "set", "some", 0)}
 \* flapping: a backend leaves the table, the clean-up runs, it comes back and is called while the old
 \* connection is still waiting to be closed; the call is a stream that stays open across that moment
 MCCallsFlap == {c \in Bidi({""}, {"one"}, {"send"}, {"some"}, {0}, {"echo"}) : ~c.early /\ Len(c.reqs) = 2 /\ Len(c.resps) = 2}
 MCTablesFlap == {[s \in Slots |-> IF s.host = "" THEN b ELSE ""] : b \in {"", "b1"}}
 
 -----------------------------------------------------------------------------
-TableJson(t) == {[host |-> s.host, path |-> s.path, be |-> t[s]] : s \in {x \in Slots : t[x] # ""}}
-StepJson(s) == IF s.op = "set" THEN [op |-> "set", table |-> TableJson(s.table)] ELSE s
+TableJson(t) == {[host |-> s.host, path |-> s.path, be |-> t[s], zero |-> s.zero] : s \in {x \in Slots : t[x] # ""}}
+StepJson(s) == IF s.op = "set" THEN [op |-> "set", table |-> TableJson(s.table)]
+               ELSE IF s.op = "call" THEN [s EXCEPT !.tabs = [i \in DOMAIN s.tabs |-> TableJson(s.tabs[i])]]
+               ELSE s
 HistJson(h) == [i \in DOMAIN h |-> StepJson(h[i])]
 
 View == <<table, pool, stale, live, closing, open, accepted, up, cur, bst, cnt>>
